@@ -69,6 +69,11 @@ template <class T> static JobResult run_job_T(unsigned kind, const uint8_t *d, s
         if (e.ilu) { IluOpts io = gen_ilu_opts(c); if ((io.droprule & DROP_SECONDARY) && known.count("F-ILU-WORK2")) io.droprule |= DROP_INTERP; ilu_set_default_options(&e.so); apply_opts(o, e.so); apply_ilu(io, e.so); e.so.IterRefine = NOREFINE; }
         else { apply_opts(o, e.so); e.so.IterRefine = SLU_DOUBLE; }
         e.so.ConditionNumber = YES; e.so.PivotGrowth = YES; e.so.ColPerm = o.colperm == MY_PERMC ? MMD_ATA : o.colperm;
+        // Half of these jobs factor inside a caller workspace that the calling thread keeps and re-uses for every later job, as a
+        // program that owns one work[] does: what an earlier problem left in it must not influence the next result (the
+        // concurrent run of the same job uses its own thread's workspace, with other leftovers or none).
+        static thread_local std::vector<char> ws;
+        if ((fnv1a(d, len, 99) >> 5) & 1) { if (ws.empty()) ws.assign((size_t)1 << 20, 0); e.work = ws.data(); e.lwork = (int_t)ws.size(); }
         e.bind();
         jr.aborted = e.call(); jr.info = e.info;
         if (!jr.aborted) {
